@@ -31,6 +31,12 @@
 (*   PerturbationRejected  any other key, seed, index, step, seat count or *)
 (*                       proof is rejected                                 *)
 (*   PriorityIsMax       the priority is the largest hash over the seats   *)
+(*   OutputUniquePerKeyMessage  among all proofs the real ProofToHash      *)
+(*                       accepts for one (key, message) -- honest ones and *)
+(*                       those a malicious key holder makes with other     *)
+(*                       encodings (line vrf_unique) -- there is exactly   *)
+(*                       one output, Evaluate's: otherwise one credential  *)
+(*                       slot verifies with several seat counts            *)
 (***************************************************************************)
 EXTENDS SortitionDefs
 
@@ -44,6 +50,8 @@ Keys == {"QuantileExact", "QuantileExact_endpoint", "QuantileExact_upper_tail", 
          "QuantileExact_p_is_1", "JWithinStake", "VerifierRecomputes", "VerifierRecomputes_issued_selected", "VerifierRecomputes_recompute_accepted",
          "VerifierRecomputes_recompute_rejected", "PerturbationRejected", "PerturbationRejected_selected", "PriorityIsMax", "PriorityIsMax_several_seats",
          "PerturbationRejected_tail", "PriorityIsMax_two_byte_seats", "SeqIssue", "SeqVerify_as_issued", "SeqVerify_perturbed",
+         "OutputUniquePerKeyMessage", "OutputUnique_malleations_presented", "OutputUnique_malleations_accepted", "unique_transcription_rejected",
+         "QuantileExact_window", "Alias_calls",
          "skipped", "scan_steps", "max_bits"}
 
 Live(e) == "skip" \notin DOMAIN e /\ "panic" \notin DOMAIN e
@@ -68,13 +76,15 @@ JudgeTail(e, inb, str, exa, upperFail) ==
        reg == IF q.a = q.b THEN "p_is_1" ELSE Regime(H(e), q.w, q.a, q.b) IN
    IF e.ev = "choose"
    THEN [v |-> IF inb THEN {} ELSE { <<"QuantileExact", {reg, IF upperFail THEN "j_too_small" ELSE "j_too_large"}>> },
-         f |-> {"QuantileExact", "QuantileExact_" \o reg, "JWithinStake"},
-         x |-> inb /\ ~exa /\ e.tag \notin {"boundary", "switch"}]
+         f |-> {"QuantileExact", "QuantileExact_" \o reg, "JWithinStake"} \cup (IF e.src = "alias" THEN {"Alias_calls"} ELSE {})
+               \cup (IF e.tag \in {"win_mid", "win_q1", "win_q3", "win_low", "win_below_switch", "win_above_switch", "win_at_switch"} THEN {"QuantileExact_window"} ELSE {}),
+         x |-> inb /\ ~exa /\ e.tag \notin {"boundary", "switch", "win_at_switch"}]
    ELSE \* verify, expect = "recompute"
         [v |-> IF e.accept
                THEN (IF inb /\ Selects(e) THEN {} ELSE { <<"VerifierRecomputes", {e.fn, e.pert, "accepted"}>> })
                ELSE (IF str /\ Selects(e) THEN { <<"VerifierRecomputes", {e.fn, e.pert, "rejected"}>> } ELSE {}),
-         f |-> {"VerifierRecomputes", IF e.accept THEN "VerifierRecomputes_recompute_accepted" ELSE "VerifierRecomputes_recompute_rejected"},
+         f |-> {"VerifierRecomputes", IF e.accept THEN "VerifierRecomputes_recompute_accepted" ELSE "VerifierRecomputes_recompute_rejected"}
+               \cup (IF e.pert \in {"alias_now", "alias_prev"} THEN {"Alias_calls"} ELSE {}),
          x |-> FALSE]
 
 IsMax(e) ==
@@ -110,6 +120,14 @@ JudgePlain(e) ==
    THEN [v |-> IF IsMax(e) THEN {} ELSE { <<"PriorityIsMax", {"computePriority"}>> },
          f |-> {"PriorityIsMax"} \cup (IF e.j >= 1 THEN {"PriorityIsMax_several_seats"} ELSE {})
                                  \cup (IF e.j >= 256 THEN {"PriorityIsMax_two_byte_seats"} ELSE {})]
+   ELSE IF e.ev = "vrf_unique"
+   THEN LET T == { e.tries[n] : n \in DOMAIN e.tries }
+            mal == { t \in T : t.mal \notin {"evaluate", "transcribed_honest"} } IN
+        [v |-> { <<"OutputUniquePerKeyMessage", {t.mal}>> : t \in { x \in T : x.accept /\ x.out # e.eval } }
+               \cup { <<"VerifierRecomputes", {"vrf", "evaluate", "rejected"}>> : t \in { x \in T : x.mal = "evaluate" /\ ~x.accept } },
+         f |-> {"OutputUniquePerKeyMessage"} \cup (IF mal # {} THEN {"OutputUnique_malleations_presented"} ELSE {})
+               \cup (IF \E t \in mal : t.accept THEN {"OutputUnique_malleations_accepted"} ELSE {})
+               \cup (IF \E t \in T : t.mal = "transcribed_honest" /\ ~t.accept THEN {"unique_transcription_rejected"} ELSE {})]
    ELSE IF e.ev = "seq_issue"
    \* "its proofs bind all inputs": the VRF output depends on all of key, seed, index, step (two different tuples never get the same
    \* output -- otherwise the credential of one is a credential of the other), and it is a function of them
@@ -156,7 +174,7 @@ Step ==
               ELSE /\ pc' = "scan" /\ i' = 0 /\ den' = Den(e.q.w, e.q.b)
                    /\ term' = Term0(e.q.w, e.q.a, e.q.b) /\ cum' = Term0(e.q.w, e.q.a, e.q.b) /\ prev' = Zero
                    /\ UNCHANGED <<l, viol, fired, inexact, iss>>
-         ELSE /\ Finish(IF e.ev \in {"choose", "verify", "priority", "seq_issue", "seq_verify"} THEN JudgePlain(e) ELSE [v |-> {}, f |-> {}], 0, 0)
+         ELSE /\ Finish(IF e.ev \in {"choose", "verify", "priority", "seq_issue", "seq_verify", "vrf_unique"} THEN JudgePlain(e) ELSE [v |-> {}, f |-> {}], 0, 0)
               /\ UNCHANGED inexact
    \/ /\ pc = "scan"
       /\ LET e == TraceLog[l] q == e.q IN
